@@ -93,7 +93,21 @@ func (c13) Run(e *simkit.Env, cc any) {
 		}
 		k := [3]int{si, g.rcv, modeOf[g.id]}
 		if prev, ok := last[k]; ok && seq < prev {
-			e.Fail("C13/out-of-order", "receiver %d got message #%d of sender %d after #%d, both addressed the same way (pool %d, skew %v, faults %v)", g.rcv, seq, si, prev, c.Pool, c.Skew, c.Faults)
+			// which link a sender writes to is decided by its id modulo the current number of pooled
+			// links: when a link is lost (and again when it has been re-dialled) senders change links
+			// and what is still in flight on the old link is overtaken. A separate class (a known
+			// finding) when the overtaking message was sent after a link had been cut.
+			class := "C13/out-of-order"
+			for _, sn := range r.sent {
+				if sn.sender == si && sn.seq == prev {
+					for _, cs := range r.cutSteps {
+						if cs <= sn.step {
+							class = "C13/out-of-order-after-link-loss"
+						}
+					}
+				}
+			}
+			e.Fail(class, "receiver %d got message #%d of sender %d after #%d, both addressed the same way (pool %d, skew %v, faults %v)", g.rcv, seq, si, prev, c.Pool, c.Skew, c.Faults)
 			return
 		}
 		last[k] = seq
